@@ -453,5 +453,69 @@ theorem port_base0_point :
     portText [48, 56, 48, 56, 48] = none ∧ portText [48, 120] = none ∧ portText [48, 48, 55] = some 7 ∧
     portText [49, 95, 95, 48] = none ∧ portText [56, 48, 56, 48] = some 8080 := by decide
 
+/-! #### all numeric fields; describing a configuration; flag-overridable general settings -/
+
+theorem loadFields_wanted (specs : List FSpec) (ws : List (Option Int)) (fs : List Int)
+    (h : loadFields specs ws = some fs) : fs = fieldsWanted specs ws := by
+  induction specs generalizing ws fs with
+  | nil => cases ws <;> simp [loadFields] at h; subst h; rfl
+  | cons sp sps ih =>
+    cases ws with
+    | nil => simp [loadFields] at h
+    | cons w ws =>
+      simp only [loadFields] at h
+      cases h1 : loadField sp w with
+      | none => rw [h1] at h; cases h
+      | some v =>
+        cases h2 : loadFields sps ws with
+        | none => rw [h1, h2] at h; cases h
+        | some vs =>
+          rw [h1, h2] at h
+          simp only [Option.some.injEq] at h
+          subst h
+          have hv : v = w.getD sp.dflt * sp.scale := by
+            unfold loadField at h1
+            simp only at h1
+            split at h1; · cases h1
+            split at h1
+            · split at h1; · cases h1
+              exact (Option.some.inj h1).symm
+            · exact (Option.some.inj h1).symm
+          simp [fieldsWanted, hv, ih ws vs h2]
+
+/-- **Fields stay what was written.** For every chain kind's numeric settings (any written / unwritten integers): if
+    the configuration loads, the fields read after loading, after describing it any number of times and after the
+    start-block computation are exactly the written values (defaults where nothing was written). -/
+theorem describe_property (specs : List FSpec) (ws : List (Option Int)) (fs : List Int)
+    (h : loadFields specs ws = some fs) :
+    PDescribe specs ws (some [fs, describe fs, describe (describe fs), describe fs]) = true := by
+  have := loadFields_wanted specs ws fs h
+  simp [PDescribe, describe, this]
+
+example : loadFields evmSpecs [some 20000000000, none, none, none, some 17, some 3, some 2, some 7]
+    = some [20000000000, 15, 15000000, 250000, 17, 3, 2, 7000000000] ∧
+    loadFields evmSpecs [none, none, none, some (-1), none, none, none, none] = none ∧
+    PDescribe evmSpecs [some 20000000000, none, none, none, none, none, none, none]
+      (some [[20000000000, 15, 15000000, 250000, 0, 10, 5, 5000000000], [20, 15, 15000000, 250000, 0, 10, 5, 5000000000]]) = false := by
+  decide
+
+/-- **General settings.** fresh / latest / blockstorePath of a chain entry load as written unless the flag is given. -/
+theorem general_property (g : GenIn) : PGeneral g (loadGeneral g) = true := by
+  simp [PGeneral, loadGeneral]
+
+example : loadGeneral ⟨some true, none, some [97], false, false, []⟩ = ⟨true, false, [97]⟩ ∧
+    loadGeneral ⟨some false, some true, some [97], true, false, [98]⟩ = ⟨true, true, [98]⟩ ∧
+    PGeneral ⟨some true, none, none, false, false, []⟩ ⟨false, false, []⟩ = false := by decide
+
+/-- **Substrate network prefix.** Every value 0 … 65535 loads unchanged. -/
+theorem subnet_property (n : Int) (h0 : 0 ≤ n) (h1 : n ≤ 65535) : PSubNet n (some (loadSubNet n)) = true := by
+  unfold PSubNet loadSubNet
+  rw [Int.emod_eq_of_lt h0 (by omega)]
+  simp [Int.toNat_of_nonneg h0]
+
+/-- excluded point (KNOWN FINDING C20-substrate-network-wrap): outside 0 … 65535 the value is accepted and wraps -/
+theorem subnet_wrap_point : loadSubNet 65536 = 0 ∧ loadSubNet (-1) = 65535 ∧ loadSubNet 65578 = 42 ∧
+    PSubNet 65578 (some (loadSubNet 65578)) = false := by decide
+
 end Property
 end Sygma.C20
